@@ -600,7 +600,8 @@ impl<'a> Converter<'a> {
         let items = self.collect_direct(node, |n| matches!(n, RefNode::CaseItem(_)));
 
         for it in &items {
-            let is_default = unwrap_node!(it.clone(), CaseItemDefault).is_some();
+            // The item itself, not a `default` of a case nested in its body.
+            let is_default = matches!(it, RefNode::CaseItem(sv_parser::CaseItem::Default(_)));
             let stmt = unwrap_node!(it.clone(), StatementOrNull);
             if is_default {
                 self.w.str("default: ");
